@@ -4,6 +4,7 @@
   operation is regenerated on every run by tracing the real code (Gen/StoreOps.lean).
 -/
 import YowsupVerif.Lemmas.Store
+import YowsupVerif.Lemmas.StoreFault
 import YowsupVerif.Gen.StoreOps
 namespace Yow.Store
 
@@ -131,6 +132,67 @@ theorem C13_refines_map_markSent (e : Nat × Nat × List Sk) (he : e ∈ Yow.Gen
 theorem C13_reopen_is_identity (db : Db) (hdb : db.inTx = false) :
     view (crash db) = view db ∧ (crash db).committed = db.committed := by
   simp [view, crash, hdb]
+
+/-! ### statement failures (storage faults): a refused operation costs no record -/
+
+def deletesNothing : Sk → Bool
+  | .del _ _ => false
+  | _ => true
+
+theorem spares_of_deletesNothing (args : List (Nat × Nat)) (t k : Nat) (s : Sk) (h : deletesNothing s = true) :
+    spares args t k s = true := by
+  cases s <;> simp_all [deletesNothing, spares]
+
+/-- the statements an operation of the current source leaves pending, in a transaction that stays open, when the write statement at
+    position `f.2.1` fails (nothing if it rolls back) -/
+def pendingAfter (f : Nat × Nat × Bool) : List (List Sk) :=
+  if f.2.2 then [] else (Yow.Gen.storeOps.filter (fun e => e.1 == f.1)).map (fun e => e.2.2.take f.2.1)
+
+/-- Regenerated obligation: the probe of the current source covers every write statement of every operation of the store API. -/
+theorem C13_fault_probe_covers_every_statement :
+    Yow.Gen.storeOps.all (fun e => e.1 == 10 || (List.range e.2.2.length).all (fun j =>
+      j == 0 || j + 1 == e.2.2.length || Yow.Gen.faultOutcome.any (fun f => f.1 == e.1 && f.2.1 == j))) = true := by decide
+
+/-- Regenerated obligation: whatever an operation of the current source leaves pending when one of its statements fails contains no DELETE
+    (a replacement that fails between its DELETE and its INSERT is rolled back — fix 79f08a3; only setAsSent leaves the first of its two
+    flag updates pending). -/
+theorem C13_refused_operation_leaves_no_delete_pending :
+    ∀ f ∈ Yow.Gen.faultOutcome, ∀ p ∈ pendingAfter f, p.all deletesNothing = true := by decide
+
+/-- A store operation that is refused because one of its statements failed never costs a record: take ANY operation of the current source,
+    ANY of its statements failing, ANY database content, ANY record present before, and ANY operations that run on the connection
+    afterwards (which commit whatever was left pending) and that do not delete that record themselves — the record is in the database
+    file. -/
+theorem C13_refused_operation_costs_no_record (e : Nat × Nat × List Sk) (he : e ∈ Yow.Gen.storeOps)
+    (f : Nat × Nat × Bool) (hf : f ∈ Yow.Gen.faultOutcome) (hfe : f.1 = e.1) (hj : f.2.1 < e.2.2.length)
+    (args : List (Nat × Nat)) (db : Db) (hdb : db.inTx = false) (t k : Nat) (hp : (lookup db.committed t k).isSome = true)
+    (later : List (List (Nat × Nat) × List Sk)) (hl : ∀ o ∈ later, ∀ s ∈ o.2, spares o.1 t k s = true)
+    (hout : (runOps (runFault f.2.2 args db e.2.2 f.2.1) later).inTx = false) :
+    (lookup (runOps (runFault f.2.2 args db e.2.2 f.2.1) later).committed t k).isSome = true := by
+  apply runOps_spares_committed t k later hl _ _ hout
+  cases hrb : f.2.2 with
+  | true =>
+    rw [runFault_rolled_back e.2.2 (storeOp_singleTx e he) args db hdb f.2.1 hj]
+    simpa [view, crash] using hp
+  | false =>
+    have hmem : e.2.2.take f.2.1 ∈ pendingAfter f := by
+      simp only [pendingAfter, hrb, Bool.false_eq_true, if_false, List.mem_map, List.mem_filter]
+      exact ⟨e, ⟨he, by simp [hfe]⟩, rfl⟩
+    have hall := C13_refused_operation_leaves_no_delete_pending f hf _ hmem
+    simp only [runFault, Bool.false_eq_true, if_false]
+    apply run_spares args t k _ _ db
+    · simpa [view, hdb] using hp
+    · intro s hs
+      exact spares_of_deletesNothing args t k s (List.all_eq_true.mp hall s hs)
+
+/-- Sensitivity (the code before fix 79f08a3): a replacement whose INSERT fails and that is NOT rolled back leaves its DELETE pending; the next
+    successful operation on any key commits it and the existing record is gone.  Rolled back, the record stays. -/
+theorem C13_pending_delete_is_committed_by_the_next_operation :
+    let db0 := run [(11, 0)] empty [.begin, .ins 0 0, .commit]
+    lookup db0.committed 0 11 = some (0, false) ∧
+    lookup (runOps (runFault false [(11, 1)] db0 [.begin, .del 0 0, .ins 0 0, .commit] 2) [([(5, 5)], [.begin, .ins 2 0, .commit])]).committed 0 11 = none ∧
+    lookup (runOps (runFault true [(11, 1)] db0 [.begin, .del 0 0, .ins 0 0, .commit] 2) [([(5, 5)], [.begin, .ins 2 0, .commit])]).committed 0 11 = some (0, false) := by
+  decide
 
 /- Non-vacuity: the empty store meets the hypotheses, and a replace on an existing key is an instance. -/
 example : empty.inTx = false ∧ (0 : Nat) < empty.committed.length ∧ UniqueKeys empty.committed :=
